@@ -190,6 +190,19 @@ func newLck(c *Ctx, cfg *lckConfig) *lckEngine {
 					e.callers[cal] = append(e.callers[cal], call)
 				}
 			}
+			// a closure handed to a synchronous higher-order function of the standard library
+			// (maps.DeleteFunc, slices.SortFunc, sort.Slice, strings.Map …) runs during that call
+			if _, isGo := call.(*ssa.Go); !isGo && syncHOF(callName(call)) {
+				for _, a := range call.Common().Args {
+					if mc, ok := a.(*ssa.MakeClosure); ok {
+						if cf, ok := mc.Fn.(*ssa.Function); ok {
+							if _, ok := e.sum[cf]; ok {
+								e.callers[cf] = append(e.callers[cf], call)
+							}
+						}
+					}
+				}
+			}
 		})
 	}
 	// closures whose every use is a resolved call are helpers, not roots
@@ -300,7 +313,16 @@ func closureOnlyCalled(mc *ssa.MakeClosure) bool {
 				}
 			case *ssa.Call:
 				if u.Call.Value != v {
-					return false
+					// an argument of a synchronous standard-library higher-order function: called during that call
+					isArg := false
+					for _, a := range u.Call.Args {
+						if a == v {
+							isArg = true
+						}
+					}
+					if !(isArg && syncHOF(callName(u))) {
+						return false
+					}
 				}
 			case *ssa.Defer:
 				if u.Call.Value != v {
@@ -1039,4 +1061,14 @@ var listMutators = map[string]bool{
 }
 var listReaders = map[string]bool{
 	"container/list.List.Len": true, "container/list.List.Front": true, "container/list.List.Back": true,
+}
+
+// syncHOF: standard-library functions that call their function argument before returning (and never retain it).
+func syncHOF(name string) bool {
+	for _, p := range []string{"maps.", "slices.", "sort.Slice", "sort.SliceStable", "sort.Search", "strings.Map", "strings.FieldsFunc", "strings.IndexFunc", "strings.LastIndexFunc", "strings.TrimFunc", "strings.TrimLeftFunc", "strings.TrimRightFunc", "strings.ContainsFunc", "bytes.Map", "bytes.FieldsFunc", "bytes.IndexFunc", "bytes.TrimFunc"} {
+		if strings.HasPrefix(name, p) {
+			return true
+		}
+	}
+	return false
 }
